@@ -69,7 +69,7 @@ ASSUMPTIONS = [
     "merge revisions are built as first-parent tree + actions; the generator makes those actions repeat the merged side's file changes (modify / add with the same file id / delete) where the tree allows it",
     "files are named by the path they have at the end of the range (as the command line does); directories are never renamed, so a file's path changes only by its own rename",
     "per-file judgement only where the model says the two definitions coincide (see docstring); merged (non-mainline) revisions of per-file logs are not compared",
-    "levels=2 and depth comparison are not judged for single dotted revisions (depths are rebased there)",
+    "levels=2 and depth comparison are not judged for single dotted revisions (depths are rebased there); for ranges whose upper limit is a merged revision, depths and forward order are not judged, and with levels>=2 the forward listing is only required to stay inside the range (depth rebasing differs by direction, so the level filter may hide the upper limit in forward order while reverse order shows it at depth 0)",
 ]
 
 
@@ -561,7 +561,12 @@ def execute(sim, plan):
                                 # (when every level is shown) is listed, nothing outside the range, nothing twice
                                 want = None
                                 s_, d = rq["range"][1], rq["range"][2]
-                                if d not in ids or (direction == "reverse" and ids[0] != d) or (levels == 0 and s_ is not None and s_ not in ids) or not set(ids) <= s0 or len(ids) != len(set(ids)):
+                                # which revisions levels>=2 hides depends on depths, and depths of such a range are
+                                # rebased differently in the two directions (reverse shows the upper limit at depth 0,
+                                # forward keeps branch depths when the lower limit is on the mainline): forward with
+                                # levels>=2 is only required to stay inside the range
+                                need_d = levels in (0, 1) or direction == "reverse"
+                                if (need_d and d not in ids) or (direction == "reverse" and ids[0] != d) or (levels == 0 and s_ is not None and s_ not in ids) or not set(ids) <= s0 or len(ids) != len(set(ids)):
                                     sim.fail("denotes", ["denotes", "none", f"dotted-range:levels{levels}:{direction}"], f"log {where} ({direction}) lists {ids}; the range starts at {s_}, ends at {d} and denotes revisions among {sorted(s0, key=graphsim._natkey)}")
                             if want is not None and (sorted(ids) != sorted(want)):
                                 sim.fail("denotes", ["denotes", "none", f"{site_kind}:levels{levels}:{direction}"], f"log {where} ({direction}) lists {ids}; the range denotes {sorted(want, key=graphsim._natkey)} (extra={sorted(set(ids) - want)} missing={sorted(want - set(ids))} duplicates={len(ids) - len(set(ids))})")
